@@ -108,6 +108,7 @@ fn inf_probe(st: &mut InflateState, data: &[u8], chunk: usize, room: usize, fini
     let mut obs = vec![];
     let mut ip = 0;
     for _ in 0..100_000 {
+        watchdog::pulse();
         let k = chunk.min(data.len() - ip);
         let mut out = vec![0u8; room];
         let r = inflate(st, &data[ip..ip + k], &mut out, if finish { MZFlush::Finish } else { MZFlush::None });
@@ -277,9 +278,33 @@ pub fn run(tier: &str) -> i32 {
         bad.bytes[l / 2] ^= 0x40;
         bad.desc = "corrupt".into();
         streams.push(bad);
+        // every targeted rule violation of C04 (bad header fields, over-subscribed codes, undefined
+        // symbols ...) as a failed history: whatever a rejected header left behind must not matter
+        for (name, bytes, zlib) in crate::props::c04::targeted_invalid().into_iter().step_by(if th { 1 } else { 2 }) {
+            // a valid dynamic block first, so tables from a successfully decoded block are loaded too
+            let mut pre = StreamBuilder::new(None);
+            let toks = [Token::Lit(b'q'), Token::Lit(b'r'), Token::Match { len: 4, dist: 2 }];
+            let spec = crate::gen::dyn_spec_for(&toks, crate::gen::CodeShape::Flat, crate::gen::CodeShape::Flat).unwrap();
+            pre.dynamic(&spec, &toks, false);
+            let p = pre.finish();
+            if !zlib && p.deflate_bits % 8 == 0 {
+                let mut both = p.bytes.clone();
+                both.extend_from_slice(&bytes);
+                streams.push(GenStream { bytes: both, plain: vec![], deflate_bits: 0, zlib, desc: format!("dyn-then-invalid:{}", name), nblocks: 0, block_starts: vec![], block_out_starts: vec![] });
+            }
+            streams.push(GenStream { bytes, plain: vec![], deflate_bits: 0, zlib, desc: format!("invalid:{}", name), nblocks: 0, block_starts: vec![], block_out_starts: vec![] });
+        }
     }
+    let n_basic_streams = 5;
     let mut ihists: Vec<IHist> = vec![IHist { stream: 0, fmt: 0, calls: vec![] }];
-    for si in 0..streams.len() {
+    for si in n_basic_streams..streams.len() {
+        let n = streams[si].bytes.len();
+        let fmt = if streams[si].zlib { 1u8 } else { 0 };
+        ihists.push(IHist { stream: si, fmt, calls: vec![(n, 100_000, 0)] });
+        ihists.push(IHist { stream: si, fmt, calls: vec![(n, 100_000, 2)] });
+        ihists.push(IHist { stream: si, fmt, calls: vec![(1, 3, 0), (n, 100_000, 0)] });
+    }
+    for si in 0..n_basic_streams {
         let n = streams[si].bytes.len();
         for fmt in 0..3u8 {
             for &k in &[1usize, n / 2, n.saturating_sub(1), n] {
@@ -296,6 +321,25 @@ pub fn run(tier: &str) -> i32 {
         let cc = corpus::compact_corpus(true);
         iprobes.push(cc.iter().rev().find(|s| !s.zlib && s.plain.len() > 4).unwrap().clone());
         iprobes.push(cc.iter().rev().find(|s| s.zlib && s.plain.len() > 4).unwrap().clone());
+        for (i, kind) in [0u8, 1, 2].iter().enumerate() {
+            let mut b = StreamBuilder::new(if i == 1 { Some((7, 2)) } else { None });
+            let toks = [Token::Lit(b'x'), Token::Lit(b'y'), Token::Match { len: 5, dist: 2 }, Token::Lit(b'z')];
+            match kind {
+                0 => {
+                    b.fixed(&toks, true);
+                }
+                1 => {
+                    let spec = crate::gen::dyn_spec_for(&toks, crate::gen::CodeShape::ChainDeep(9), crate::gen::CodeShape::Flat).unwrap();
+                    b.dynamic(&spec, &toks, true);
+                }
+                _ => {
+                    b.stored(b"stored first", false).fixed(&toks, true);
+                }
+            }
+            let mut s = b.finish();
+            s.desc = format!("probe-{}-first", ["fixed", "dynamic", "stored"][i]);
+            iprobes.push(s);
+        }
         let t = corpus::shape_named("T", &[(Seg::T, 50000)]).data;
         iprobes.push(GenStream { bytes: miniz_oxide::deflate::compress_to_vec_zlib(&t, 6), plain: t, deflate_bits: 0, zlib: true, desc: "T50000 zlib".into(), nblocks: 0, block_starts: vec![], block_out_starts: vec![] });
     }
